@@ -1041,6 +1041,73 @@ func checkVerifyMethod(p *an.Prog, r *an.Run, typ string, v, h *ssa.Function) {
 	if nilReturns == 0 {
 		bad = append(bad, "Verify never returns nil")
 	}
+	// a correctly signed request is accepted: the shape tests on the decoded signature refuse exactly what cannot be a
+	// signature. (a) where the bytes are cut to their first h bytes, the refusal guarding the cut is "len < h" — not
+	// "len <= h", which turns away the compact h-byte form the verifier asks for; (b) where the legacy recovery byte is
+	// normalised (v -= 27), both legacy values 27 and 28 are recognised
+	an.AllInstrs(v, func(in ssa.Instruction) {
+		sl, ok := in.(*ssa.Slice)
+		if !ok || sl.High == nil || sl.Low != nil {
+			return
+		}
+		h, isK := an.ConstInt(sl.High)
+		if !isK {
+			return
+		}
+		if _, isBytes := sl.X.Type().Underlying().(*types.Slice); !isBytes {
+			return
+		}
+		for _, cr := range ctrlRels(sl.Block()) {
+			l, rr, op := cr.L, cr.R, cr.Op
+			if _, isLen := an.LenOf(rr); isLen {
+				l, rr = rr, l
+				op = cr.Rel.Swap().Op
+			}
+			x, isLen := an.LenOf(l)
+			k, isConst := an.ConstInt(rr)
+			if !isLen || !isConst || stripConv(x) != stripConv(sl.X) {
+				continue
+			}
+			// relation holding on the path to the cut
+			okShape := (op == token.GEQ && k == h) || (op == token.GTR && k == h-1) || (op == token.EQL && k >= h)
+			if !okShape {
+				bad = append(bad, "the signature is cut to its first "+strconv.FormatInt(h, 10)+" bytes at "+p.Pos(sl.Pos())+" only when len "+op.String()+" "+strconv.FormatInt(k, 10)+": a signature of exactly "+strconv.FormatInt(h, 10)+" bytes (the form the verifier wants) is refused although correctly signed")
+			}
+		}
+	})
+	legacy := map[int64]bool{}
+	normalises := false
+	an.AllInstrs(v, func(in ssa.Instruction) {
+		bo, ok := in.(*ssa.BinOp)
+		if !ok {
+			return
+		}
+		isVByte := func(x ssa.Value) bool {
+			u, ok := x.(*ssa.UnOp)
+			if !ok || u.Op != token.MUL {
+				return false
+			}
+			ia, ok := u.X.(*ssa.IndexAddr)
+			if !ok {
+				return false
+			}
+			k, isK := an.ConstInt(ia.Index)
+			return isK && k == 64
+		}
+		if bo.Op == token.EQL && isVByte(bo.X) {
+			if k, isK := an.ConstInt(bo.Y); isK {
+				legacy[k] = true
+			}
+		}
+		if bo.Op == token.SUB && isVByte(bo.X) {
+			if k, isK := an.ConstInt(bo.Y); isK && k == 27 {
+				normalises = true
+			}
+		}
+	})
+	if normalises && !(legacy[27] && legacy[28]) {
+		bad = append(bad, "the legacy recovery byte is normalised (v -= 27) but not for both legacy values 27 and 28: a wallet signature in the 27/28 form with the unrecognised value is refused although correctly signed")
+	}
 	r.Check(len(bad) == 0, "verify-crypto", name, v.Pos(), "nil is returned only under the cryptographic check of (identity, hash(), signature)", "%s", strings.Join(bad, "; "))
 }
 
